@@ -203,10 +203,17 @@ def run_entry(entry, n, seed, acc, tier, kinds=None):
     core.hyp_collect(case(), chk, n, seed, acc, case_timeout=120)
 
 
-def run_targets(entry, seed, acc):
+def run_targets(entry, seed, acc, only_composite_required=False, limit=None):
     """thorough: every segment node of the map is forced into a document and receives every applicable fault kind once"""
     root = mm.load_map(entry['file'])
     nodes = [n for n in mm.walk(root) if n.kind == 'seg' and n.usage != 'N' and n.id not in faults.ENVELOPE and c02._usable(n)]
+    if only_composite_required:
+        # quick tier slice: segment nodes owning a composite with a required component behind the first one - the
+        # (node class x fault kind) pair that random location choice reaches least often
+        nodes = [n for n in nodes if any(c.kind == 'comp' and c.usage != 'N' and any(sc.usage == 'R' for sc in c.children[1:]) for c in n.children)]
+    if limit and len(nodes) > limit:
+        k0 = (seed * 3) % len(nodes)
+        nodes = (nodes + nodes)[k0:k0 + limit]
     reached = 0
     for i, node in enumerate(nodes):
         doc = None
@@ -259,13 +266,18 @@ def shards(tier, seed):
         s.append({'entry': e, 'i': i, 'n': 150 if tier == 'thorough' else 20})
         if tier == 'thorough':
             s.append({'entry': e, 'i': i, 'targets': True})
+        else:
+            s.append({'entry': e, 'i': i, 'targets': True, 'slice': True})
     return s
 
 
 def run_shard(spec, seed, tier):
     acc = core.Acc()
     if spec.get('targets'):
-        run_targets(spec['entry'], seed, acc)
+        if spec.get('slice'):
+            run_targets(spec['entry'], seed, acc, only_composite_required=True, limit=3)
+        else:
+            run_targets(spec['entry'], seed, acc)
     else:
         run_entry(spec['entry'], spec['n'], seed * 1000 + spec['i'], acc, tier)
     return acc
